@@ -9,7 +9,9 @@ import (
 	"iter"
 	"log/slog"
 	"math/rand/v2"
+	"os"
 	"sort"
+	"strings"
 	"sync"
 	"testing"
 	"testing/synctest"
@@ -87,8 +89,8 @@ type userWrite struct {
 }
 
 type sim struct {
-	r   *vkit.Run
-	idx int
+	r     *vkit.Run
+	idx   int
 	rng   *rand.Rand // main goroutine
 	opRng *rand.Rand // reconcile goroutine (operations and metrics callbacks)
 	cfg   Config
@@ -102,13 +104,13 @@ type sim struct {
 	target    map[uint64]uint64 // simulated target: id -> payload
 	attempts  []Attempt
 	writes    []userWrite
-	touches   []userWrite // status-only writes by the second reconciler
+	touches   []userWrite       // status-only writes by the second reconciler
 	model     map[uint64]uint64 // id -> payload of the latest user write (absent = deleted)
 	modelRev  map[uint64]uint64 // id -> revision of the latest user write
 	r2done    map[uint64]uint64 // id -> payload for which the second reconciler set Done
 	nextPay   uint64
 	seq       int64 // event sequence (under mu)
-	failProb  int // percent
+	failProb  int   // percent
 	injectPct int
 	initDone  bool
 	initAt    time.Duration
@@ -285,6 +287,12 @@ func (o *ops) after(a Attempt, fail bool) error {
 	s.attempts = append(s.attempts, a)
 	s.mu.Unlock()
 	s.logf("op %s id=%d payload=%d rev=%d status=%s ok=%v", a.Op, a.ID, a.Payload, a.Rev, a.Kind, a.OK)
+	if os.Getenv("VERIF_DEBUG") != "" {
+		rt := s.db.ReadTxn()
+		if o, rev, ok := s.table.Get(rt, idIndex.Query(a.ID)); ok {
+			s.logf("   table now: payload=%d rev=%d r1=%s(id %d) ", o.Payload, rev, getStatus(o).Kind, getStatus(o).ID)
+		}
+	}
 	if fail {
 		return errors.New("injected failure")
 	}
@@ -366,8 +374,8 @@ func (m *metrics) ReconciliationDuration(moduleID cell.FullModuleID, name, opera
 	}
 }
 func (m *metrics) ReconciliationErrors(cell.FullModuleID, string, int, int) {}
-func (m *metrics) PruneError(cell.FullModuleID, string, error)               {}
-func (m *metrics) PruneDuration(cell.FullModuleID, string, time.Duration)    {}
+func (m *metrics) PruneError(cell.FullModuleID, string, error)              {}
+func (m *metrics) PruneDuration(cell.FullModuleID, string, time.Duration)   {}
 
 // ---- checks ----
 
@@ -579,7 +587,9 @@ func (s *sim) pacingChecks() {
 			}
 			wait := c.At - p.End
 			s.waits++
-			if wait < min {
+			// (with refreshing enabled the refresh loop re-marks objects on its own schedule, which is a change the event log
+			// does not see: an immediate new attempt may be a refresh, not a retry, so the lower bound is not judged there)
+			if wait < min && !s.cfg.Refresh {
 				s.violate("pacing", "retry-too-early", "id=%d: retry %.3fms after the failed %s, minimum backoff is %v", id, float64(wait)/1e6, p.Op, min)
 				return
 			}
@@ -792,6 +802,9 @@ func Run(t *testing.T, r *vkit.Run, idx int, cfg Config) {
 		r.Count("watermark_comparisons", int64(s.wmChecks))
 		r.Count("convergence_checks", int64(s.convCheck))
 		s.mu.Unlock()
+		if os.Getenv("VERIF_DEBUG") != "" {
+			os.WriteFile("/tmp/recsim-debug.log", []byte(strings.Join(s.log, "\n")), 0o644)
+		}
 		r.Case(s.fp.Sum(), nontrivial)
 		if r.WantSample() {
 			tail := s.log
